@@ -26,7 +26,8 @@ TRUSTED = ["Go regexp engine and regexp.QuoteMeta (compared directly, not modell
            "strings.ToLower beyond ASCII", "sqlparser (query text -> AST)"]
 RULE = ("random tables (0-10 rows, typed columns, small value pools) x random predicates from the full operator "
         "grammar (depth<=5 quick / 8 thorough); non-trivial = predicate keeps >=1 and drops >=1 row; "
-        "distinct by (document, SQL); 1 in 10 tables is given as an array of arrays (2-3 inner arrays)")
+        "distinct by (document, SQL); LIKE additionally over the small world {a,b}* x {a,b,%,_}* (values up to 3-4, patterns up to 4 characters: "
+        "sampled in quick, complete in thorough); 1 in 10 tables is given as an array of arrays (2-3 inner arrays)")
 
 
 def in_subq_factory(doc_other):
@@ -104,6 +105,14 @@ def like_cases(rnd, n):
         else:
             pat = "".join(rnd.choice(LIKE_ALPHA) for _ in range(rnd.randint(0, 4)))
         reqs.append((s, pat))
+    # the small world over {a, b} x {a, b, %, _}: every way literal segments of a pattern can overlap, abut or exceed the
+    # value (prefix = suffix, a segment longer than what is left, % at either end, empty value) occurs here
+    import itertools
+    values = ["".join(t) for k in range(0, 4) for t in itertools.product("ab", repeat=k)] + ["abab", "aaaa", "abba", "AB", "aB"]
+    pats = ["".join(t) for k in range(0, 5) for t in itertools.product("ab%_", repeat=k)]
+    small = [(v, p) for v in values for p in pats]
+    rnd.shuffle(small)
+    reqs.extend(small[:n] if n < 2000 else small)
     return reqs
 
 
